@@ -115,6 +115,17 @@ CHECKS["C14"] = dict(
         "size; public functions of `concurrent` modules have serial siblings with identical signatures. Index-disjointness at the raw-pointer "
         "sites and bit-identity of results are not decided.",
    design_ref="DESIGN.md §3 C14")
+CHECKS["C08"] = dict(
+   technique="static analysis: symbolic evaluation of MIR into polynomial normal forms over F_p (E5) + exact number theory on extracted constants (E6) + layout/dataflow rules",
+   text="Proof-strength for the algebraic clause under one stated assumption. For every impl ExtensibleField<d> (f62, f64: d=2,3; f128: d=2) the "
+        "MIR of mul, square, mul_base and frobenius is executed on symbolic coordinates; the resulting polynomials equal the schoolbook product "
+        "reduced by the documented irreducible, a*a, a*(c,0,..) and x^p (phi^p computed exactly; the Frobenius constants are thereby checked), for "
+        "ALL operands. The generic QuadExtension/CubeExtension operators, the base-field embedding, conjugate and inv are evaluated per supported "
+        "field with trait calls inlined: inv returns its argument only when every coordinate is zero and otherwise N/n with x*N == (n,0,..) "
+        "identically; the modulus polynomials are irreducible over the (Lucas-certified prime) moduli. Layout: repr(C), d fields of B, slice "
+        "lengths scaled by exactly EXTENSION_DEGREE == d. ASSUMED (decided for canonical results by C07, not here): the base-field operators "
+        "+ - * neg double square inv compute the ring operations on every internal representation they can meet.",
+   design_ref="DESIGN.md §3 C08")
 CHECKS["C10"] = dict(
    technique="static analysis: must-guard dominance (E2) on the root recomputation + path-sensitive interval/taint abstract interpretation of MIR with relational and for-all-element facts (E4) + dataflow rule on into_paths' result",
    text="Decides the structural half of the negative direction. (G) every successful BatchMerkleProof::get_root / MerkleTree::verify_batch / "
